@@ -3,9 +3,21 @@
 import json, os, subprocess
 V = os.path.dirname(os.path.dirname(os.path.abspath(__file__)))
 CHECKS = {
- "C03": dict(engine="kani", technique="bounded model checking of the compiled code (Kani/CBMC, SAT) over symbolic keys; native replay of counterexamples",
-    text="Kani harnesses over pairs/triples of keys with 0-3 symbolic labels decide eq<=>cmp==Equal, symmetry, antisymmetry, transitivity and hash-stream equality for all values within the bound",
-    note="strings from a 3-element table; >3 labels, ahash quality and weak-memory effects on get_hash outside the claim", ref="§4 C03"),
+ "C02": dict(engine="mirsmt+kani", technique="SMT (z3, cross-checked by cvc5) over a partial-order encoding generated from the MIR of RecorderOnceCell::{set,try_load}: interleaving = integer clocks + reads-from, release/acquire race relation; Kani harness for sequential install sequences; counterexample schedules replayed natively with real threads",
+    text="every interleaving of <=3 concurrent installers and <=2 emitting threads on the real once-cell code: exactly one install succeeds, losers get their recorder back, emissions see the winner fully constructed, once seen always seen, no data race",
+    note="sequential consistency + release/acquire happens-before; Box/UnsafeCell/ptr models; more threads and other weak-memory effects outside the claim", ref="§4 C02"),
+ "C03": dict(engine="kani+mirsmt", technique="bounded model checking of the compiled code (Kani/CBMC, SAT) over symbolic keys + SMT partial-order encoding of the get_hash publication race from MIR; native replay of counterexamples",
+    text="Kani harnesses over pairs/triples of keys with 0-4 symbolic labels decide eq<=>cmp==Equal, symmetry, antisymmetry, transitivity, hash-stream and get_hash equality, construction-path and label-order independence; E3 decides that racing first get_hash()/clone calls all return the key's hash",
+    note="1-byte strings with symbolic content (+ aliasing prefixes); KeyHasher replaced by a recording hasher; >8 labels, ahash quality outside the claim", ref="§4 C03"),
+ "C04": dict(engine="kani+mirsmt", technique="Kani/CBMC over handle histories with symbolic u64/f64 values + SMT partial-order encoding (from MIR) of 2-3 concurrent operations on the atomic cell with a linearisation oracle; native schedule replay",
+    text="for all argument values: sums mod 2^64, absolute = max, gauge = sequential f64 model, record_many delivers n times, conversions as documented, no panic; for all interleavings of 2-3 concurrent counter/gauge operations the final value is a linearisation",
+    note="fetch_update modelled as one atomic RMW; f64 +/- as uninterpreted functions in the schedule queries; >3 threads, portable-atomic outside", ref="§4 C04"),
+ "C14": dict(engine="kani", technique="bounded model checking of the compiled code (Kani/CBMC): memory-safety checks + drop/refcount accounting over symbolic lengths, capacities and contents",
+    text="for each construction kind (borrowed/owned/shared) and six operation scenarios (clone, into_owned, drop orders): content preserved, no use-after-free/double free (CBMC pointer checks), every element dropped exactly once, Arc count back to one",
+    note="operation sequences fixed per harness; lengths <= 2; empty-buffer leaks not observable; Send/Sync type-level", ref="§4 C14"),
+ "C16": dict(engine="kani", technique="bounded model checking of the compiled code (Kani/CBMC) with the PRNG draw as a solver unknown (hooked), checking the step contract of Algorithm R",
+    text="capacities 0-2, three fill/drain cycles with symbolic push counts: yields only this cycle's values, min(n, capacity) of them, sample rate = yielded/pushed, no panic; the draw range requested is exactly count+1 and the replaced slot is the drawn one (uniformity follows by induction)",
+    note="uniformity of rand's random_range and the induction are trusted; pushes concurrent with a drain not yet covered", ref="§4 C16"),
 }
 NA = {}
 ids = [json.loads(l)["id"] for l in open(os.path.join(V, "properties.jsonl"))]
